@@ -487,6 +487,171 @@ fn arena_workload<const M: usize>(bytes: &[u8], thorough: bool) -> ArenaOut {
     out
 }
 
+
+// ---------------------------------------------------------------------------------------------
+// family 4: "doubling while the limit permits". The same request sequence is served by an arena without a limit and by
+// one with a limit placed on, or a few bytes around, the total the first one holds after its j-th chunk. Whenever the
+// chunk the unlimited arena chose fits under the limit (bytes held for allocation + the chunk's bytes for allocation
+// <= limit), the limited arena must obtain a chunk at least as large at the same point. Nothing is demanded about
+// chunks the limit does not permit. The oracle uses the ledger's sizes only (usable = block size - measured overhead).
+
+struct LimitOut {
+    viol: Vec<String>,
+    chunks: u32,
+    compared: u32,
+    boundary: bool,
+}
+
+fn limit_twin<const M: usize>(bytes: &[u8]) -> LimitOut {
+    let mut out = LimitOut { viol: vec![], chunks: 0, compared: 0, boundary: false };
+    let g = |i: usize| bytes.get(i).cloned().unwrap_or(0);
+    let km = k_meta();
+    let cap_req: usize = match g(1) % 4 {
+        0 | 1 => 0,
+        2 => 1 + g(2) as usize * 8,
+        _ => crate::ops::map_size(g(2), 0).min(1 << 16),
+    };
+    let dist = g(3) % 4;
+    let nops = 20 + (g(4) as usize % 180);
+    let req = |k: usize| -> Layout {
+        let x = g(8 + k % 120) as usize;
+        let y = g(8 + (k * 7 + 3) % 120) as usize;
+        let size = match dist {
+            0 => 1 + x % 64,
+            1 => 1 + x * 8,
+            2 => 1 + (x << (y % 6)),
+            _ => {
+                if x % 16 == 0 {
+                    1500 + y * 40
+                } else {
+                    8 + x % 200
+                }
+            }
+        };
+        Layout::from_size_align(size, (1usize << (y % 5)).min(16)).unwrap()
+    };
+    // phase A: no limit
+    let mut evs = vec![];
+    let mut acq: Vec<(usize, usize, usize)> = vec![]; // (op index, usable bytes held before, usable bytes of the new chunk); op index 0 = constructor
+    let mut held = 0usize;
+    let a = {
+        let _g = enter_arena(1);
+        Bump::<M>::with_min_align_and_capacity(cap_req)
+    };
+    ledger::take_events_for(1, &mut evs);
+    for e in evs.iter().filter(|e| e.kind == EvKind::Alloc) {
+        acq.push((0, held, e.size - km));
+        held += e.size - km;
+    }
+    for k in 0..nops {
+        let l = req(k);
+        {
+            let _g = enter_arena(1);
+            a.alloc_layout(l);
+        }
+        ledger::take_events_for(1, &mut evs);
+        for e in evs.iter().filter(|e| e.kind == EvKind::Alloc) {
+            acq.push((k + 1, held, e.size - km));
+            held += e.size - km;
+        }
+    }
+    {
+        let _g = enter_arena(1);
+        drop(a);
+    }
+    out.chunks = acq.len() as u32;
+    if acq.is_empty() {
+        return out;
+    }
+    // the limit: total held after chunk j, moved by a small delta
+    let j = (g(5) as usize * acq.len()) >> 8;
+    let s_j = acq[j].1 + acq[j].2;
+    const DELTAS: [i64; 20] = [0, 1, 15, 16, 17, 31, 47, 48, 49, 63, 64, 95, 96, 97, 143, 144, 1000, -1, -16, -48];
+    let d = DELTAS[g(6) as usize % DELTAS.len()];
+    let limit = if d >= 0 { s_j + d as usize } else { s_j.saturating_sub((-d) as usize) };
+    out.boundary = d >= 0 && d < 200;
+    // where the limit is set: right after construction, or right before the operation that made the unlimited arena obtain chunk j
+    let set_at = if g(7) & 1 == 0 { 0 } else { acq[j].0 };
+    // phase B
+    let b = {
+        let _g = enter_arena(2);
+        Bump::<M>::with_min_align_and_capacity(cap_req)
+    };
+    let mut held_b = 0usize;
+    let mut nb = 0usize; // chunks of B so far
+    let mut in_step = true;
+    ledger::take_events_for(2, &mut evs);
+    for e in evs.iter().filter(|e| e.kind == EvKind::Alloc) {
+        held_b += e.size - km;
+        nb += 1;
+    }
+    if set_at == 0 {
+        let _g = enter_arena(2);
+        b.set_allocation_limit(Some(limit));
+    }
+    'ops: for k in 0..nops {
+        if set_at == k + 1 && set_at != 0 {
+            let _g = enter_arena(2);
+            b.set_allocation_limit(Some(limit));
+        }
+        let l = req(k);
+        let r = {
+            let _g = enter_arena(2);
+            b.try_alloc_layout(l).is_ok()
+        };
+        ledger::take_events_for(2, &mut evs);
+        let got: Vec<usize> = evs.iter().filter(|e| e.kind == EvKind::Alloc).map(|e| e.size - km).collect();
+        // what the unlimited arena did at this operation
+        let want: Vec<(usize, usize, usize)> = acq.iter().filter(|x| x.0 == k + 1).cloned().collect();
+        let limited_now = set_at <= k + 1;
+        if in_step {
+            for (wi, w) in want.iter().enumerate() {
+                let permitted = !limited_now || w.1 + w.2 <= limit;
+                if !permitted {
+                    // from here on the two arenas may legitimately differ
+                    in_step = false;
+                    break;
+                }
+                out.compared += 1;
+                match got.get(wi) {
+                    Some(&u) if u >= w.2 => {}
+                    Some(&u) => {
+                        out.viol.push(format!(
+                            "Bump<{M}> (capacity {cap_req}), allocation limit {limit}: at request {k} (size {}, align {}) the arena held {} bytes for allocation; without a limit it obtains a chunk with {} bytes for allocation there ({} + {} = {} <= limit, so the limit permits it), with the limit it obtained one with only {u}",
+                            l.size(), l.align(), w.1, w.2, w.1, w.2, w.1 + w.2
+                        ));
+                        break 'ops;
+                    }
+                    None => {
+                        out.viol.push(format!(
+                            "Bump<{M}> (capacity {cap_req}), allocation limit {limit}: at request {k} (size {}, align {}) the arena held {} bytes for allocation; without a limit it obtains a chunk with {} bytes for allocation there ({} + {} = {} <= limit, so the limit permits it), with the limit it {}",
+                            l.size(), l.align(), w.1, w.2, w.1, w.2, w.1 + w.2, if r { "obtained none" } else { "refused the request" }
+                        ));
+                        break 'ops;
+                    }
+                }
+            }
+            if in_step && want.is_empty() && !got.is_empty() {
+                // B needed memory where A did not although they were in step: only possible if B wasted space
+                in_step = false;
+            }
+        }
+        for u in got {
+            held_b += u;
+            nb += 1;
+        }
+        if !in_step {
+            break;
+        }
+    }
+    let _ = (held_b, nb);
+    {
+        let _g = enter_arena(2);
+        drop(b);
+    }
+    out
+}
+
 impl Engine for C18Engine {
     fn prop(&self) -> &'static str {
         "C18"
@@ -518,7 +683,12 @@ impl Engine for C18Engine {
             v.insert(0, 3);
             v
         });
-        prop_oneof![3 => hist, 3 => vecw, 2 => arenaw, 2 => collw].boxed()
+        let limitw = (0u8..5, proptest::collection::vec(any::<u8>(), 130)).prop_map(|(m, mut v)| {
+            v.insert(0, 4);
+            v.insert(1, m);
+            v
+        });
+        prop_oneof![3 => hist, 3 => vecw, 2 => arenaw, 2 => collw, 2 => limitw].boxed()
     }
     fn run(&self, bytes: &[u8]) -> CaseOut {
         let mode = bytes.first().cloned().unwrap_or(0);
@@ -527,7 +697,7 @@ impl Engine for C18Engine {
             0 => {
                 let mut o = self.inner.run(&bytes[1..]);
                 o.hash = fnv(bytes);
-                o.stats.extend_from_slice(&[0, 0, 0, 0, 0]);
+                o.stats.extend_from_slice(&[0, 0, 0, 0, 0, 0, 0]);
                 o
             }
             1 => {
@@ -557,16 +727,34 @@ impl Engine for C18Engine {
                 };
                 ledger::end_case();
                 let mut stats = vec![0u32; NST];
-                stats.extend_from_slice(&[1, r.reallocs, r.ops, 0, 0]);
+                stats.extend_from_slice(&[1, r.reallocs, r.ops, 0, 0, 0, 0]);
                 CaseOut { viol: r.viol, nontrivial: r.reallocs >= 4, hash: fnv(bytes), stats, ..Default::default() }
             }
             3 => {
                 let ctx = crate::coll_eng::run_coll_case(&bytes[1..]);
                 let mut stats = vec![0u32; NST];
-                stats.extend_from_slice(&[0, ctx.stats[crate::vec_eng::V::Reallocs as usize], 0, 0, 0]);
+                stats.extend_from_slice(&[0, ctx.stats[crate::vec_eng::V::Reallocs as usize], 0, 0, 0, 0, 0]);
                 let viol: Vec<String> = ctx.viol.iter().filter(|(p, _)| *p == "C18").map(|(_, m)| m.clone()).collect();
                 let other: Vec<String> = ctx.viol.iter().filter(|(p, _)| *p != "C18").map(|(p, _)| p.to_string()).collect();
                 CaseOut { viol, other, nontrivial: ctx.stats[crate::vec_eng::V::Reallocs as usize] > 0, hash: fnv(bytes), stats, ..Default::default() }
+            }
+            4 => {
+                let _ = k_meta();
+                ledger::begin_case(7);
+                ledger::set_placement(1, ledger::Placement::Max);
+                ledger::set_placement(2, ledger::Placement::Max);
+                let body = &bytes[1..];
+                let r = match bytes.get(1).cloned().unwrap_or(0) % 5 {
+                    0 => limit_twin::<1>(body),
+                    1 => limit_twin::<2>(body),
+                    2 => limit_twin::<4>(body),
+                    3 => limit_twin::<8>(body),
+                    _ => limit_twin::<16>(body),
+                };
+                ledger::end_case();
+                let mut stats = vec![0u32; NST];
+                stats.extend_from_slice(&[0, 0, 0, 0, 0, 1, r.compared]);
+                CaseOut { viol: r.viol, nontrivial: r.chunks >= 3 && r.compared >= 2 && r.boundary, hash: fnv(bytes), stats, ..Default::default() }
             }
             _ => {
                 let _ = k_meta();
@@ -580,7 +768,7 @@ impl Engine for C18Engine {
                 };
                 ledger::end_case();
                 let mut stats = vec![0u32; NST];
-                stats.extend_from_slice(&[0, 0, 0, 1, r.chunks]);
+                stats.extend_from_slice(&[0, 0, 0, 1, r.chunks, 0, 0]);
                 CaseOut { viol: r.viol, nontrivial: r.chunks >= 4, hash: fnv(bytes), stats, ..Default::default() }
             }
         }
@@ -595,12 +783,13 @@ impl Engine for C18Engine {
                 d["family"] = json!("collections slot machine, capacity oracles");
                 d
             }
+            4 => json!({"family": "doubling while the limit permits (unlimited arena vs arena limited around the total after its j-th chunk)", "min_align": ([1, 2, 4, 8, 16][(bytes.get(1).cloned().unwrap_or(0) % 5) as usize]), "bytes_hex": hex(bytes)}),
             _ => json!({"family": "arena capacity partition + volume workload", "min_align": ([1, 2, 4, 8, 16][(bytes.get(1).cloned().unwrap_or(0) % 5) as usize]), "bytes_hex": hex(bytes)}),
         }
     }
     fn stat_names(&self) -> Vec<&'static str> {
         let mut n = ST_NAMES.to_vec();
-        n.extend_from_slice(&["vec_workloads", "vec_reallocations", "vec_ops", "arena_workloads", "arena_workload_chunks"]);
+        n.extend_from_slice(&["vec_workloads", "vec_reallocations", "vec_ops", "arena_workloads", "arena_workload_chunks", "limit_twin_workloads", "limit_twin_chunks_compared"]);
         n
     }
     fn fuzz(&self) -> Option<FuzzSpec> {
@@ -613,7 +802,7 @@ impl Engine for C18Engine {
         }
     }
     fn rule(&self) -> String {
-        "four proptest-generated families: (3) the collections slot machine of C13/C14 with the capacity oracles only (push within capacity stays in place; room promised by with_capacity_in/reserve survives every later operation incl. both operands of append; a String's capacity is only lowered by shrink_to_fit or wholesale assignment), non-trivial = at least one reallocation; (0) single-arena histories with chunk_capacity honesty probes and provably-fitting requests; (1) Vec<T> (T of 1..64 bytes) and String workloads of push runs, bulk extends, reserve+fill, clear/truncate/pop and neighbour allocations: pushes within capacity never move the buffer, reserved room is usable in place, every growth at least doubles, reallocations <= log2(capacity ratio)+3, final capacity <= 4x the most ever needed; (2) arenas built with a capacity: the capacity is served as a generated partition (sizes multiple of MIN_ALIGN, align <= MIN_ALIGN) with zero global-allocator events, then a volume workload (1 KiB..4 MiB quick, ..64 MiB thorough; four size distributions): chunk sizes non-decreasing, #chunks <= 2*log2(held/256)+4, held <= 8x occupied + 16 KiB + 2x capacity. non-trivial = history with >= 4 chunks, Vec workload with >= 4 reallocations, arena workload with >= 4 chunks; distinct = distinct case bytes".into()
+        "five proptest-generated families: (4) doubling while the limit permits: one request sequence served by an arena without a limit and by one whose limit sits on, or a few bytes around, the total the first holds after its j-th chunk (set at construction or right before that chunk is needed); whenever the chunk the unlimited arena chose fits under the limit the limited arena must obtain one at least as large at the same request, non-trivial = at least 3 chunks, 2 compared, limit within 200 bytes above a chunk boundary; (3) the collections slot machine of C13/C14 with the capacity oracles only (push within capacity stays in place; room promised by with_capacity_in/reserve survives every later operation incl. both operands of append; a String's capacity is only lowered by shrink_to_fit or wholesale assignment), non-trivial = at least one reallocation; (0) single-arena histories with chunk_capacity honesty probes and provably-fitting requests; (1) Vec<T> (T of 1..64 bytes) and String workloads of push runs, bulk extends, reserve+fill, clear/truncate/pop and neighbour allocations: pushes within capacity never move the buffer, reserved room is usable in place, every growth at least doubles, reallocations <= log2(capacity ratio)+3, final capacity <= 4x the most ever needed; (2) arenas built with a capacity: the capacity is served as a generated partition (sizes multiple of MIN_ALIGN, align <= MIN_ALIGN) with zero global-allocator events, then a volume workload (1 KiB..4 MiB quick, ..64 MiB thorough; four size distributions): chunk sizes non-decreasing, #chunks <= 2*log2(held/256)+4, held <= 8x occupied + 16 KiB + 2x capacity. non-trivial = history with >= 4 chunks, Vec workload with >= 4 reallocations, arena workload with >= 4 chunks; distinct = distinct case bytes".into()
     }
     fn assumptions(&self) -> Vec<String> {
         vec!["the numeric bounds are deliberately loose: they separate geometric from linear growth, nothing finer".into(), "reserve_exact / shrink_to_fit are not part of the growth workloads (they are not amortised by design)".into()]
